@@ -2,6 +2,7 @@
 import itertools
 import genlib
 from protocol import Exc
+import probe
 from debian_inspector import package
 
 ID = 'C17'
@@ -72,7 +73,9 @@ def observe(op, inp):
         return [l, ls]
     fn = inp[5] if op == 'C17a' else inp
     try:
-        res = atup(package.DebArchive.from_filename(fn))
+        res = probe.twice(lambda: package.DebArchive.from_filename(fn), atup,
+                          lambda a: (probe.scramble_attrs(a.version, epoch=987654321, upstream='zz', revision='zz'),
+                                     probe.scramble_attrs(a, name='zz-scrambled', architecture='zz', original_filename='zz')))
     except Exception as e:
         res = Exc(type(e).__name__)
     # the three archive classes read a file name the same way (CodeArchive / CodeMetadata have no architecture)
